@@ -98,8 +98,10 @@ func (idx *BlockerIndexer) Search(ctx context.Context, q *query.Query) ([]int64,
 
 	// If there is an exact height query, return the result immediately
 	// (if it exists).
+	// (only if it is the whole query: with other conditions next to it, the
+	// height is one condition among them and is intersected below)
 	height, ok := lookForHeight(conditions)
-	if ok {
+	if ok && len(conditions) == 1 {
 		ok, err := idx.Has(height)
 		if err != nil {
 			return nil, err
@@ -155,6 +157,32 @@ func (idx *BlockerIndexer) Search(ctx context.Context, q *query.Query) ([]int64,
 	// for all other conditions
 	for i, c := range conditions {
 		if intInSlice(i, skipIndexes) {
+			continue
+		}
+
+		if c.CompositeKey == types.BlockHeightKey && c.Op == query.OpEqual {
+			// block.height = H among other conditions: the primary keys hold the
+			// height as an integer, so evaluate it as the range [H, H] over them
+			h, ok := c.Operand.(int64)
+			if !ok {
+				return nil, fmt.Errorf("%s must be compared with an integer, got %v", types.BlockHeightKey, c.Operand)
+			}
+			qr := indexer.QueryRange{
+				Key: types.BlockHeightKey, LowerBound: h, UpperBound: h,
+				IncludeLowerBound: true, IncludeUpperBound: true,
+			}
+			prefix, err := orderedcode.Append(nil, qr.Key)
+			if err != nil {
+				return nil, fmt.Errorf("failed to create prefix key: %w", err)
+			}
+			filteredHeights, err = idx.matchRange(ctx, qr, prefix, filteredHeights, !heightsInitialized)
+			if err != nil {
+				return nil, err
+			}
+			heightsInitialized = true
+			if len(filteredHeights) == 0 {
+				break
+			}
 			continue
 		}
 
